@@ -7,8 +7,9 @@ CONSTANTS
   Table = "GPOS"
   MaxL = 3
   TwoSubs = FALSE
-SPECIFICATION MSpec
+INIT MInit
+NEXT RNext
 CONSTRAINTS Bounded NoStuckLig GenEmit Stat
-INVARIANTS ReturnImpliesValid RaiseOnlyWhenStuck NoCrash
-PROPERTIES DenotationPreserved Progress Terminates
-CHECK_DEADLOCK FALSE
+INVARIANTS ReturnImpliesValid RaiseOnlyWhenStuck NoCrash TerminatesInv
+PROPERTIES DenotationPreserved Progress
+CHECK_DEADLOCK TRUE
